@@ -154,7 +154,7 @@ func genEmbedDoc(r *RNG) string {
 
 func init() {
 	register(&Prop{
-		ID: "C19",
+		ID:   "C19",
 		Rule: "full grid every run: 28 hosts (allow-listed roots, their subdomains, suffix look-alikes youtube.com.evil.example, prefix look-alikes evilyoutube.com / xplayer.vimeo.com, vimeo.com itself, userinfo tricks youtube.com@evil.example, upper case, port, trailing dot) x 14 path/query shapes (/embed/ID, /embed/ID/, /v/ID&x=1, /v/ID?x=1, /video/ID, /ID, container only, root, service name only in path or query, /user/status/ID, parameters+fragment) x 6 source forms (https, http, scheme-relative, relative with the page on / off the allow list, host name without scheme = relative path) x 6 carriers (iframe, object[data], object>param[name=movie], rendered twitter iframe with data-tweet-id, twitter blockquote with the tweet link as last anchor, the same with foreign iframes/objects nested inside, an iframe whose src is foreign while the allow-listed URL sits in data-src, iframes among the children of a <picture>) = 18816 cases, each between two long paragraphs (quick) and additionally inside random articles (thorough). Oracle: a placeholder may exist only if the TRUE host (known by construction) is allow-listed; its data-type must be that service and data-id the id encoded in the URL (last path segment, resp. data-tweet-id); no bare <iframe> may survive. Non-trivial = every grid cell; distinct = distinct cells.",
 		Assumptions: []string{
 			"'only if': an allow-listed source that is not turned into a placeholder (port, case, unsupported carrier) is not a violation",
